@@ -169,7 +169,7 @@ theorem control_rejected (cfg : Cfg) (now : Nat) (off : Int) (raw : List Nat) (r
 /-- get_schedules -/
 theorem get_schedules_frames (cfg : Cfg) (now : Nat) (off : Int) (raw r2 : List Nat) (rest : List (List Nat))
     (hcfg : WFcfg cfg) (hnow : now < 4294967296) (hraw : 12 ≤ raw.length) :
-    ∃ f1 f2, runProg (prog cfg now off .getSchedules) (raw :: r2 :: rest) = ([f1, f2], .ok (.schedules r2)) ∧
+    ∃ f1 f2, runProg (prog cfg now off .getSchedules) (raw :: r2 :: rest) = ([f1, f2], (getSchedules off (now + off) r2).map (.schedules r2)) ∧
       IsRefWire .login1 [] (tsOf now) cfg.deviceId cfg.deviceKey f1 ∧
       IsRefWire .getSchedules (sessionId raw) (tsOf now) cfg.deviceId cfg.deviceKey f2 := by
   obtain ⟨hd1, hd2, hk1, hk2⟩ := hcfg
